@@ -930,7 +930,38 @@ def gen_exports(rng):
     seq = [[rng.choice([1, 2, 2, "psi4"]), rng.random() < 0.5, rng.random() < 0.5] for _ in range(n)]
     if rng.random() < 0.5:
         seq[rng.randrange(n - 1)][2] = False         # at least one copy=False export that is not the last
+    for e in seq:
+        if rng.random() < 0.35:
+            e[2] = None                              # copy= not given: the signature default (documented: a copy)
+        if e[2] is not False and rng.random() < 0.4:
+            e.append("edit")                         # the caller edits the arrays of the dictionary it was handed (its own copy)
     return seq
+
+
+def list_form_exports(exports):
+    """a record held as plain lists cannot be exported with an explicit copy=False (NumPy 2 refuses np.array(list, copy=False)):
+    that is the caller's request, not a defect - such exports ask for the default instead"""
+    return [[e[0], e[1], None if e[2] is False else e[2]] + list(e[3:]) for e in exports]
+
+
+def edit_exported(d):
+    """what a caller may do with a dictionary it owns: overwrite every array / list of numbers in place"""
+    for k, v in list(d.items()):
+        if isinstance(v, dict) and k == "molecule":
+            edit_exported(v)
+        elif isinstance(v, np.ndarray) and v.size:
+            if v.dtype.kind == "f":
+                v[...] = 99.0
+            elif v.dtype.kind in "iu":
+                v[...] = 7
+            elif v.dtype.kind == "b":
+                v[...] = ~v
+            elif v.dtype.kind == "U":
+                v[...] = "Q"
+        elif isinstance(v, list) and v and k in ("geom", "geometry", "mass", "masses", "elez", "atomic_numbers", "real", "fragment_charges",
+                                                  "fragment_multiplicities", "fragment_separators"):
+            for j in range(len(v)):
+                v[j] = 7
 
 
 def _expected_bohr(m_ref, arrays):
@@ -957,14 +988,17 @@ def molrec_history_oracle(arrays, exports):
         fresh = lambda: from_arrays(speclabel=False, verbose=0, **copy.deepcopy(arrays))
         want_g, exact = _expected_bohr(fresh(), arrays)
         bad, handed = [], []
-        for i, (dt, np_out, cp) in enumerate(list(exports) + [[2, False, True]]):
-            what = f"export #{i + 1} from one live {arrays.get('units')} molrec after {[list(e) for e in exports[:i]]}: to_schema(m, {dt!r}, np_out={np_out}, copy={cp})"
+        form = "plain-list" if arrays.get("np_out") is False else "ndarray"
+        for i, (dt, np_out, cp, *todo) in enumerate(list(exports) + [[2, False, True]]):
+            ckw = {} if cp is None else {"copy": cp}
+            what = (f"export #{i + 1} from one live {arrays.get('units')} molrec ({form} form) after {[list(e) for e in exports[:i]]}: "
+                    f"to_schema(m, {dt!r}, np_out={np_out}{'' if cp is None else ', copy=%s' % cp})")
             try:
-                got = to_schema(live, dtype=dt, np_out=np_out, copy=cp)
+                got = to_schema(live, dtype=dt, np_out=np_out, **ckw)
             except Exception as e:
                 bad.append((what + f" raised {type(e).__name__}: {e}"[:200], None))
                 break
-            want = to_schema(fresh(), dtype=dt, np_out=np_out, copy=cp)
+            want = to_schema(fresh(), dtype=dt, np_out=np_out, **ckw)
             a, b = ({k: v for k, v in x.items() if k != "provenance"} for x in (got, want))
             if dt == 1:
                 a["molecule"], b["molecule"] = ({k: v for k, v in x["molecule"].items() if k != "provenance"} for x in (got, want))
@@ -989,6 +1023,9 @@ def molrec_history_oracle(arrays, exports):
                 if diff:
                     bad.append((what + f": reading the same dictionary twice (from_schema) gives different records in {diff}", None))
                     break
+            if "edit" in todo and cp is not False:
+                edit_exported(got)                  # the caller's own copy: the record and every later export must not notice
+                snap = copy.deepcopy(got)
             handed.append((what, got, snap))
         if not bad:
             for what, got, snap in handed:
@@ -1637,6 +1674,27 @@ def lunit(u):
     return {"Bohr": "Bohr", "Angstrom": "Angstrom"}.get(u, "OtherUnit")
 
 
+# what a caller may pass as to_schema(units=...): the two documented names first, then other spellings of them, other length units
+# known to qcel.constants ('au' is the astronomical unit there), and names that are not length units at all
+REQUEST_UNITS = ["Bohr", "Angstrom", "bohr", "BOHR", "a0", "angstrom", "ANGSTROM", "au", "nm", "pm", "meter", "garbage", "hartree", ""]
+
+
+def known_length_unit(mu, u):
+    from qcelemental import constants
+    try:
+        constants.conversion_factor(mu, u)
+        return True
+    except Exception:
+        return False
+
+
+def bohr_x(mu, iu):
+    """the x coordinate(s) an atom stored at x = 1.0 may have in a Bohr export"""
+    if mu == "Bohr":
+        return [1.0]
+    return [iu] if iu is not None else [1.0 / b for b in BOHR2ANG]
+
+
 def factor_cases(rng, n):
     """probe to_schema's unit branch: an atom stored at x = 1.0 is exported at x = factor"""
     from qcelemental.molparse import from_arrays, to_schema
@@ -1644,24 +1702,36 @@ def factor_cases(rng, n):
     from qcelemental.exceptions import ValidationError
     out = []
     base = from_arrays(geom=[1.0, 0.0, 0.0, 0.0, 0.0, 3.0], elem=["He", "He"], units="Bohr")
-    for _ in range(n):
-        mu = rng.choice(["Bohr", "Angstrom"])
-        u = rng.choice(["Bohr", "Bohr", "Angstrom"])
+    grid = [(mu, u, dt) for u in REQUEST_UNITS[2:] for mu in ("Bohr", "Angstrom") for dt in (1, 2, "psi4")]
+    for k in range(n + len(grid)):
+        if k < len(grid):                       # every other spelling / length unit x stored unit x dtype once
+            mu, u, dt0 = grid[k]
+        else:
+            mu, dt0 = rng.choice(["Bohr", "Angstrom"]), None
+            u = rng.choice(["Bohr", "Bohr", "Angstrom"])
         m = copy.deepcopy(base)
         m["units"] = mu
         iu = None
         if rng.random() < 0.6:
             iu = rng.choice([1.0 / 0.52917721067, 1.8897261, 1.88972612462, 2.0, pick_iutau(rng), pick_iutau(rng), pick_iutau(rng)])
             m["input_units_to_au"] = iu
-        dt = rng.choice([1, 2, "psi4"])
+        dt = rng.choice([1, 2, "psi4"]) if dt0 is None else dt0
         try:
             s = to_schema(m, dtype=dt, units=u)
         except ValidationError:
-            out.append(("refused", (mu, u, iu, dt), None))
+            out.append(("refused", (mu, u, iu, dt), "ValidationError"))
+            continue
+        except Exception as e:
+            if u in ("Bohr", "Angstrom"):
+                raise
+            out.append(("refused", (mu, u, iu, dt), type(e).__name__))
             continue
         g = s["geom"] if dt == "psi4" else (s["molecule"] if dt == 1 else s)["geometry"]
-        conv = float(constants.conversion_factor(mu, u))   # what the else branch of to_schema multiplies by
-        out.append(("ok", (mu, u, iu, dt), (Fraction(conv), Fraction(float(np.asarray(g).reshape(-1)[0])))))
+        try:
+            conv = Fraction(float(constants.conversion_factor(mu, u)))   # what the else branch of to_schema multiplies by
+        except Exception:
+            conv = None                                                  # (an accepted name qcel.constants does not know)
+        out.append(("ok", (mu, u, iu, dt), (conv, Fraction(float(np.asarray(g).reshape(-1)[0])))))
     return out
 
 
@@ -2199,8 +2269,13 @@ def correspond(ctx):
         for p_ in probs:
             corr.failures.append({"stream": "known-probes", "case": {"molrec": arrays}, "what": p_["what"], "observed": p_["observed"]})
     n_molrec = 2500 if ctx.thorough else 400
-    for i in range(n_molrec + len(MOLREC_CORPUS)):
-        arrays = MOLREC_CORPUS[i] if i < len(MOLREC_CORPUS) else gen_molrec_arrays(rng)
+    # records held as plain lists (from_arrays(np_out=False): the json-able form, what unnp() / a JSON file give) next to ndarray ones
+    molrec_corpus = list(MOLREC_CORPUS) + [dict(a, np_out=False) for a in MOLREC_CORPUS[:3]]
+    for i in range(n_molrec + len(molrec_corpus)):
+        arrays = molrec_corpus[i] if i < len(molrec_corpus) else gen_molrec_arrays(rng)
+        if i >= len(molrec_corpus) and rng.random() < 0.25:
+            arrays["np_out"] = False
+        corr.hit("molrec_form_" + ("list" if arrays.get("np_out") is False else "ndarray"))
         try:
             probs, core = molrec_oracle(arrays)
         except Refused:
@@ -2220,7 +2295,10 @@ def correspond(ctx):
     # several exports from one live record, copy=False and copy=True interleaved, each judged against the original values
     hist_corpus = [({"elem": ["O", "H", "H"], "geom": [0, 0, 0, 0, 0.757, 0.587, 0, -0.757, 0.587], "units": "Angstrom"}, [[2, True, False], [1, False, True]]),
                    ({"elem": ["He", "Ne"], "geom": [0.5, 0, 0, 0, 0, 3.0], "units": "Angstrom", "input_units_to_au": IU_BASE * 1.012}, [[1, False, False], [2, True, False], [2, False, True]]),
-                   ({"elem": ["He", "Ne"], "geom": [0.5, 0, 0, 0, 0, 3.0], "units": "Bohr"}, [["psi4", True, False], [2, True, False], [1, False, True]])]
+                   ({"elem": ["He", "Ne"], "geom": [0.5, 0, 0, 0, 0, 3.0], "units": "Bohr"}, [["psi4", True, False], [2, True, False], [1, False, True]]),
+                   ({"elem": ["He", "Ne"], "geom": [0.5, 0, 0, 0, 0, 3.0], "units": "Bohr"}, [[2, True, None, "edit"], [1, True, None, "edit"], ["psi4", True, None, "edit"], [2, False, None]]),
+                   ({"elem": ["O", "H", "H"], "geom": [0, 0, 0, 0, 0.757, 0.587, 0, -0.757, 0.587], "units": "Angstrom"}, [[1, True, None, "edit"], [2, True, True, "edit"], [2, False, None, "edit"]]),
+                   ({"elem": ["He", "Ne"], "geom": [0.5, 0, 0, 0, 0, 3.0], "units": "Angstrom", "np_out": False}, [[2, True, None, "edit"], [1, False, None], ["psi4", True, True, "edit"]])]
     for i in range((900 if ctx.thorough else 160) + len(hist_corpus)):
         if i < len(hist_corpus):
             arrays, exports = hist_corpus[i]
@@ -2228,6 +2306,8 @@ def correspond(ctx):
             arrays, exports = gen_molrec_arrays(rng), gen_exports(rng)
             if arrays["units"] == "Bohr" and rng.random() < 0.5:
                 arrays["units"] = "Angstrom"
+            if rng.random() < 0.3:
+                arrays["np_out"], exports = False, list_form_exports(exports)
         try:
             probs = molrec_history_oracle(arrays, exports)
         except Refused:
@@ -2237,8 +2317,12 @@ def correspond(ctx):
             probs = [{"what": f"exports from one live molrec raised {type(e).__name__}: {e}"[:300], "observed": None}]
         corr.count("molrec-history")
         corr.hit("molrec_history_" + arrays["units"] + ("_own_factor" if "input_units_to_au" in arrays else ""))
-        if any(not e_[2] for e_ in exports[:-1]):
+        if any(e_[2] is False for e_ in exports[:-1]):
             corr.hit("molrec_history_copy_false_then_more")
+        if any(e_[2] is None for e_ in exports):
+            corr.hit("molrec_history_copy_omitted_" + ("list_form" if arrays.get("np_out") is False else "ndarray_form"))
+        if any("edit" in e_[3:] for e_ in exports[:-1]):
+            corr.hit("molrec_history_export_edited_then_more")
         for p_ in probs:
             corr.failures.append({"stream": "molrec-history", "case": {"molrec": arrays, "exports": exports}, "what": p_["what"], "observed": p_["observed"]})
     # every ndarray field given a bare scalar: fields with a shape-guarding validator must refuse it; for the others the
@@ -2307,11 +2391,20 @@ def correspond(ctx):
             if dt in (1, 2) and u == "Bohr":
                 corr.failures.append({"stream": "factor", "case": {"units": mu, "requested": u, "iu2au": iu, "dtype": dt},
                                       "what": "to_schema refused a Bohr export", "observed": None})
+            if u not in ("Bohr", "Angstrom"):
+                corr.hit("factor_other_unit_" + ("refused" if obs == "ValidationError" else "unknown_to_constants"))
+                if obs != "ValidationError" and known_length_unit(mu, u):
+                    corr.failures.append({"stream": "factor", "case": {"units": mu, "requested": u, "iu2au": iu, "dtype": dt},
+                                          "what": f"to_schema(units={u!r}) (a length unit qcel.constants knows, not allowed for this dtype) was refused with "
+                                                  f"a bare {obs} instead of ValidationError", "observed": obs})
             continue
-        if dt in (1, 2) and u != "Bohr":
-            corr.failures.append({"stream": "factor", "case": {"units": mu, "requested": u, "iu2au": iu, "dtype": dt},
-                                  "what": "QCSchema export in a unit other than Bohr was not refused", "observed": None})
         conv, seen = obs
+        if dt in (1, 2) and u != "Bohr" and (u == "Angstrom" or not any(abs(float(seen) - x) <= 1e-6 * abs(x) for x in bohr_x(mu, iu) + bohr_x(mu, None))):
+            corr.failures.append({"stream": "factor", "case": {"units": mu, "requested": u, "iu2au": iu, "dtype": dt},
+                                  "what": f"QCSchema export with units={u!r} was not refused and its geometry is not in Bohr: an atom stored at x = 1.0 {mu} "
+                                          f"is exported at x = {float(seen)!r}", "observed": float(seen)})
+        if dt == "psi4" and u not in ("Bohr", "Angstrom"):
+            corr.hit("factor_psi4_other_unit_accepted")
         if mu == "Angstrom" and u == "Bohr" and not any(abs(float(seen) * b - 1) < 1e-6 for b in BOHR2ANG) and iu is None:
             corr.failures.append({"stream": "factor", "case": {"units": mu, "requested": u, "iu2au": iu, "dtype": dt},
                                   "what": "Angstrom -> Bohr factor is not 1/bohr2angstroms", "observed": float(seen)})
@@ -2322,6 +2415,8 @@ def correspond(ctx):
         if mu == "Bohr" and u == "Bohr" and seen != 1:
             corr.failures.append({"stream": "factor", "case": {"units": mu, "requested": u, "iu2au": iu, "dtype": dt},
                                   "what": "Bohr -> Bohr export changed the coordinates", "observed": float(seen)})
+        if conv is None:
+            continue
         fterms.append(f"({lunit(mu)}, {lunit(u)}, {copt(None if iu is None else Fraction(iu), cq)}, {cq(conv)}, {cq(seen)})")
         fmeta.append({"units": mu, "requested": u, "iu2au": iu, "dtype": dt, "observed_factor": float(seen)})
     tterms, tmeta, dterms, dmeta = trans_cases(ctx, corr)
@@ -2602,7 +2697,10 @@ def replay(ctx, rp):
         except Exception as e:
             out = f"{type(e).__name__}"
         iu = case.get("iu2au")
-        bad = (case["dtype"] in (1, 2) and case["requested"] != "Bohr" and not isinstance(out, str)) or \
+        rq = case["requested"]
+        bad = (case["dtype"] in (1, 2) and rq != "Bohr" and not isinstance(out, str) and
+               (rq == "Angstrom" or not any(abs(out - x) <= 1e-6 * abs(x) for x in bohr_x(case["units"], iu) + bohr_x(case["units"], None)))) or \
+              (isinstance(out, str) and out != "ValidationError" and rq not in ("Bohr", "Angstrom") and known_length_unit(case["units"], rq)) or \
               (case["units"] == "Bohr" and case["requested"] == "Bohr" and out != 1.0) or \
               (case["units"] == "Angstrom" and case["requested"] == "Bohr" and iu is not None and abs(iu - IU_BASE) < 0.05 and out != iu)
         return {"case": case, "exported_x_of_unit_atom": out, "fails": bool(bad)}
